@@ -690,6 +690,11 @@ pub fn run_case(case: &Case) -> Option<Outcome> {
         .map(|(n, c)| (n.clone(), records(c, sep1).into_iter().map(|r| r.to_vec()).collect()))
         .collect();
     let mut acked: Vec<Acked> = Vec::new();
+    // events written in full by an attempt that then failed (they are NOT part of the remainder handed back for the
+    // retry): (files that attempt changed, event bodies), per attempt of the batch now being retried …
+    let mut chain_prefix: Vec<(Vec<String>, Vec<Vec<u8>>)> = Vec::new();
+    // … and, once a later attempt of the same batch reported Ok, owed to synced content like any acknowledged event
+    let mut acked_chain: Vec<(Vec<String>, Vec<Vec<u8>>)> = Vec::new();
     let mut worker_deleted: BTreeSet<String> = BTreeSet::new();
     let own_count = |files: &BTreeMap<String, FileData>| files.keys().filter(|n| ref_member(&cfg.prefix, &cfg.ext, n).is_some()).count();
     // the file the worker holds, as far as the outside can tell: the file of the last successful batch
@@ -715,6 +720,10 @@ pub fn run_case(case: &Case) -> Option<Outcome> {
         step_ops.push(op_before);
         let had_active = worker.has_active_file();
         let mut submitted_now: Option<(Vec<Vec<u8>>, Now, u32)> = None;
+        let mut written_before_failure: usize = 0;
+        if !matches!(step, Step::Retry { .. }) {
+            chain_prefix.clear();
+        }
         let res: String = match step {
             Step::Restart => {
                 drop(worker);
@@ -771,6 +780,7 @@ pub fn run_case(case: &Case) -> Option<Outcome> {
                                 if k > events.len() || rest[..] != events[k.min(events.len())..] {
                                     fail(&mut fails, "retry-remainder");
                                 }
+                                written_before_failure = k.min(events.len());
                                 pending = Some(b);
                                 s
                             }
@@ -779,6 +789,7 @@ pub fn run_case(case: &Case) -> Option<Outcome> {
                                 let crashed = std::mem::replace(&mut fs.0.lock().unwrap().crashed, false);
                                 worker = new_worker();
                                 pending = None;
+                                chain_prefix.clear();
                                 if crashed {
                                     "crash".to_string()
                                 } else {
@@ -843,6 +854,19 @@ pub fn run_case(case: &Case) -> Option<Outcome> {
                 .filter(|(n, f)| before.get(*n).map(|g| g.content()) != Some(f.content()) && !(before.get(*n).is_none() && f.content().is_empty()))
                 .map(|(n, _)| n)
                 .collect();
+            if written_before_failure > 0 && wf {
+                chain_prefix.push((
+                    changed.iter().map(|n| (*n).clone()).collect(),
+                    events[..written_before_failure].iter().map(|e| e[..e.len() - 1].to_vec()).collect(),
+                ));
+            }
+            if res == "ok" {
+                // C07 / C10: the batch is now done for the channel (its flush callbacks fire), so the events an earlier,
+                // failed attempt wrote in full and did not hand back are owed to synced content as well
+                acked_chain.append(&mut chain_prefix);
+            } else if res == "noretry" {
+                chain_prefix.clear();
+            }
             if res == "ok" {
                 // C11 one file at a time
                 if changed.len() > 1 {
@@ -941,6 +965,23 @@ pub fn run_case(case: &Case) -> Option<Outcome> {
                         }
                     }
                     _ => fail(&mut fails, "acked"),
+                }
+            }
+            for (files, events) in &acked_chain {
+                if files.iter().any(|f| worker_deleted.contains(f)) {
+                    continue;
+                }
+                let ok = events.iter().all(|e| {
+                    files.iter().any(|n| match after.get(n) {
+                        Some(f) if f.durable => {
+                            let recs = records(&f.synced, sep1);
+                            recs[..recs.len() - 1].iter().any(|r| *r == &e[..])
+                        }
+                        _ => false,
+                    })
+                });
+                if !ok {
+                    fail(&mut fails, "acked-prefix-of-retried-batch");
                 }
             }
         }
